@@ -39,6 +39,7 @@ class Env:
         self.late_renames = False
         self.exercise_intermediates = True
         self.bases: dict[int, Any] = {}
+        self.trace: list | None = None       # start/finish trace shared with the controllable loop (sync bodies record themselves)
 
     def err(self, tag: str) -> UserErr:
         if tag not in self.errs:
@@ -178,7 +179,15 @@ def make_function(spec: dict, fnid: str, env: Env, *, is_async: bool) -> Any:
         lines.append("    finally:")
         lines.append("        _E.inflight -= 1")
     else:
-        lines.extend("    " + ln for ln in body)
+        # a synchronous body also counts as executing while it runs (it cannot be suspended, but others may be suspended around it)
+        lines.append("    _E.inflight += 1")
+        lines.append("    _E.max_inflight = max(_E.max_inflight, _E.inflight)")
+        lines.append(f"    if _E.trace is not None: _E.trace.append(('start', {fnid!r}))")
+        lines.append("    try:")
+        lines.extend("        " + ln for ln in body)
+        lines.append("    finally:")
+        lines.append(f"        if _E.trace is not None: _E.trace.append(('finish', {fnid!r}))")
+        lines.append("        _E.inflight -= 1")
     src = "\n".join(lines)
     glob = {"_E": env, "_DEF": defaults, "_V": py_val, "_D": py_dec}
     exec(src, glob)  # noqa: S102 - generated from a closed body language
@@ -235,7 +244,7 @@ def build_node(spec: dict, gi: int, graphs: list[Any], env: Env, *, async_bodies
         if spec.get("sameFuncAs"):
             func = env.funcs[f"{gi}:{spec['sameFuncAs']}"]      # two nodes over ONE function object
         else:
-            func = make_function(spec, fnid, env, is_async=async_bodies)
+            func = make_function(spec, fnid, env, is_async=async_bodies and not spec.get("syncBody"))
             env.funcs[fnid] = func
         if env.late_renames and in_ren:
             # the node object is used first (defaults read, placed in a graph) and renamed afterwards
